@@ -426,6 +426,94 @@ pub proof fn lemma_val_at_sign(i: int, s: int, m: int)
     if i == 0 { assert(0 * p == 0); }
 }
 
+
+// ------------------------------------------------------------------ binary floats as exact decimals
+/// (ri, rs) denotes exactly (+-) frac * 2^pow:   |ri| * 2^max(0,-pow) == frac * 2^max(0,pow) * 10^rs
+pub open spec fn float_exact(neg: bool, frac: int, pow: int, ri: int, rs: int) -> bool {
+    &&& rs >= 0
+    &&& (neg ==> ri <= 0)
+    &&& (!neg ==> ri >= 0)
+    &&& iabs(ri) * pow2i(-pow) == frac * pow2i(pow) * pow10(rs)
+}
+/// what an f32 bit pattern denotes (finite values): zero, subnormal m * 2^-149, normal (m + 2^23) * 2^(e - 150)
+pub open spec fn f32_exact(bits: u32, ri: int, rs: int) -> bool {
+    let e = ((bits >> 23) & 0xff) as int;
+    let m = (bits & 0x7f_ffff) as int;
+    let neg = (bits >> 31) != 0;
+    if e == 0 && m == 0 { ri == 0 }
+    else if e == 0 { float_exact(neg, m, -149, ri, rs) }
+    else { float_exact(neg, m + 0x80_0000, e - 150, ri, rs) }
+}
+pub open spec fn f64_exact(bits: u64, ri: int, rs: int) -> bool {
+    let e = ((bits >> 52) & 0x7ff) as int;
+    let m = (bits & 0xf_ffff_ffff_ffff) as int;
+    let neg = (bits >> 63) != 0;
+    if e == 0 && m == 0 { ri == 0 }
+    else if e == 0 { float_exact(neg, m, -1074, ri, rs) }
+    else { float_exact(neg, m + 0x10_0000_0000_0000, e - 1075, ri, rs) }
+}
+pub proof fn lemma_shl_one_is_pow2(tz: u64)
+    requires tz < 63
+    ensures (1u64 << tz) as int == pow2i(tz as int)
+    decreases tz
+{
+    reveal(pow);
+    if tz == 0 { assert((1u64 << 0u64) == 1u64) by (bit_vector); }
+    else {
+        let p = (tz - 1) as u64;
+        lemma_shl_one_is_pow2(p);
+        assert((1u64 << tz) == 2 * (1u64 << p)) by (bit_vector) requires tz == p + 1, tz < 63;
+        if p == 0 { assert(pow(2, 1) == 2 * pow(2, 0)); }
+    }
+}
+/// shifting out tz <= trailing_zeros bits is exact (u32); t0 is trailing_zeros(frac) with vstd's axiom facts
+pub proof fn lemma_shr_exact32(frac: u32, t0: u32, tz: u32)
+    requires t0 <= 32, tz <= t0, tz < 32, t0 < 32 ==> (frac << ((32 - t0) as u32)) == 0u32, t0 == 32 ==> frac == 0
+    ensures ((frac >> tz) as int) * pow2i(tz as int) == frac as int
+{
+    let rf = frac >> tz;
+    if t0 == 32 { assert((0u32 >> tz) == 0u32) by (bit_vector); assert(0 * pow2i(tz as int) == 0); }
+    else {
+        let sh = (32 - t0) as u32;
+        assert(((frac >> tz) << tz) == frac) by (bit_vector) requires (frac << sh) == 0u32, sh == 32 - t0, tz <= t0, t0 < 32;
+        assert((rf as u64) * (1u64 << (tz as u64)) == (frac as u64)) by (bit_vector)
+            requires ((frac >> tz) << tz) == frac, rf == frac >> tz, tz < 32;
+        lemma_shl_one_is_pow2(tz as u64);
+    }
+}
+pub proof fn lemma_shr_exact64(frac: u64, t0: u32, tz: u32)
+    requires t0 <= 64, tz <= t0, tz < 62, frac < 0x20_0000_0000_0000, t0 < 64 ==> (frac << ((64 - t0) as u64)) == 0u64, t0 == 64 ==> frac == 0
+    ensures ((frac >> tz) as int) * pow2i(tz as int) == frac as int
+{
+    let rf = frac >> tz;
+    if t0 == 64 { assert((0u64 >> tz) == 0u64) by (bit_vector); assert(0 * pow2i(tz as int) == 0); }
+    else {
+        let sh = (64 - t0) as u64;
+        assert(((frac >> tz) << tz) == frac) by (bit_vector) requires (frac << sh) == 0u64, sh == 64 - t0, tz <= t0, t0 < 64;
+        assert((rf as u128) * ((1u64 << (tz as u64)) as u128) == (frac as u128)) by (bit_vector)
+            requires ((frac >> tz) << tz) == frac, rf == frac >> tz, tz < 62;
+        lemma_shl_one_is_pow2(tz as u64);
+    }
+}
+/// 5^k * 2^k == 10^k
+pub proof fn lemma_pow5_pow2(k: int)
+    requires k >= 0
+    ensures pow(5, k as nat) * pow2i(k) == pow10(k)
+{
+    reveal(pow);
+    if k == 0 { } else { lemma_pow_multiplies_base(5, 2, k as nat); }
+}
+pub proof fn lemma_pow_multiplies_base(a: int, b: int, e: nat)
+    ensures pow(a, e) * pow(b, e) == pow(a * b, e)
+    decreases e
+{
+    reveal(pow);
+    if e > 0 {
+        lemma_pow_multiplies_base(a, b, (e - 1) as nat);
+        assert((a * pow(a, (e - 1) as nat)) * (b * pow(b, (e - 1) as nat)) == (a * b) * (pow(a, (e - 1) as nat) * pow(b, (e - 1) as nat))) by (nonlinear_arith);
+    }
+}
+
 /// every shape a multiplication result takes in the crate: exact product, an operand (or anything equal
 /// to it, e.g. its normalized form) when the other operand equals one, zero when an operand is zero
 pub broadcast proof fn b_mul_cases(ri: int, rs: int, ai: int, a_s: int, bi: int, bs: int)
